@@ -322,6 +322,64 @@ pub fn gen_mutant(rng: &mut StdRng) -> (Vec<OpDesc>, String) {
     (tab, cs.into_iter().collect())
 }
 
+/// structural mirrors of the real operator tables, read from the implementation's own `make()`
+pub fn real_table(which: &str) -> Vec<OpDesc> {
+    use exmex::MakeOperators;
+    fn conv<T: Clone + std::fmt::Debug>(ops: Vec<exmex::Operator<'static, T>>) -> Vec<OpDesc> {
+        ops.iter()
+            .map(|o| {
+                let b = o.bin().ok();
+                OpDesc {
+                    name: intern(o.repr()),
+                    bin: o.has_bin(),
+                    un: o.has_unary(),
+                    constant: o.constant().is_some(),
+                    prio: b.as_ref().map(|b| b.prio).unwrap_or(0),
+                    comm: b.as_ref().map(|b| b.is_commutative).unwrap_or(false),
+                }
+            })
+            .collect()
+    }
+    match which {
+        "float" => conv(exmex::FloatOpsFactory::<f64>::make()),
+        _ => conv(exmex::ValOpsFactory::<i32, f64>::make()),
+    }
+}
+
+/// texts that stress the lexical rules: names extended/truncated/concatenated, literal spellings, signs
+pub fn gen_lex_text(rng: &mut StdRng, tab: &[OpDesc]) -> String {
+    let lits = ["1", "1.", ".1", "1.1", "1..", "1.1.1", ".", "12.5", "007", "1e5", "0x1", "4"];
+    let ids = ["x", "y1", "_a", "α", "Ω2", "Erwin", "expx", "sin4", "PI5", "e", "E", "π", "τx", "log2x", "log1", "mine", "xmin"];
+    let glue = ["", "", " ", "  "];
+    let mut s = String::new();
+    for _ in 0..rng.random_range(1..=5) {
+        let piece: String = match rng.random_range(0..12) {
+            0 | 1 => tab.choose(rng).unwrap().name.to_string(),
+            2 => format!("{}{}", tab.choose(rng).unwrap().name, ["x", "1", "_", "α", "h", "2", "10"].choose(rng).unwrap()),
+            3 => {
+                let n = tab.choose(rng).unwrap().name;
+                let k = n.chars().count();
+                n.chars().take(rng.random_range(1..=k)).collect()
+            }
+            4 => format!("{}{}", tab.choose(rng).unwrap().name, tab.choose(rng).unwrap().name),
+            5 | 6 => lits.choose(rng).unwrap().to_string(),
+            7 => ids.choose(rng).unwrap().to_string(),
+            8 => ["+", "-", "+-", "--", "-+-", "+++"].choose(rng).unwrap().to_string(),
+            9 => ["(", ")", "((", "))"].choose(rng).unwrap().to_string(),
+            10 => format!("{{{}}}", ["x", "a b", "1", "sin", "+", "α β", "😀"].choose(rng).unwrap()),
+            _ => format!("{}(x)", tab.iter().filter(|o| o.un && !o.bin).map(|o| o.name).collect::<Vec<_>>().choose(rng).unwrap_or(&"sin")),
+        };
+        s.push_str(&piece);
+        s.push_str(glue.choose(rng).unwrap());
+    }
+    s
+}
+
+pub fn main_tables(_args: &[String]) -> i32 {
+    println!("{}", json!({"float": table_to_json(&real_table("float")), "val": table_to_json(&real_table("val"))}));
+    0
+}
+
 pub fn main(args: &[String]) -> i32 {
     let o = Opts::parse(args);
     let n = o.num("n", 100);
@@ -334,6 +392,15 @@ pub fn main(args: &[String]) -> i32 {
     let mut out = std::io::BufWriter::new(stdout.lock());
     for i in 0..n {
         let (tab, text, tag) = match family.as_str() {
+            "lex-float" | "lex-val" | "lex-rnd" => {
+                let t = match family.as_str() {
+                    "lex-float" => real_table("float"),
+                    "lex-val" => real_table("val"),
+                    _ => gen_table(&mut rng),
+                };
+                let s = gen_lex_text(&mut rng, &t);
+                (t, s, family.clone())
+            }
             "soup" => {
                 let l = rng.random_range(1..=30);
                 let (t, s) = gen_soup(&mut rng, l);
